@@ -175,6 +175,10 @@ def check_guards(ctx, cfg):
                 ok, det = r
         ctx.ob("C15.D", key, ok, det, at=b["at"], cfg=cfg)
     # the hidden Vec -> Box<GenericArray> helpers of box_arr! (discovered: any `GenericArray::__*` function taking a Vec<T> and returning the box)
+    check_vec_helpers(ctx, cfg)
+
+
+def check_vec_helpers(ctx, cfg, rule="C15.D"):
     helpers = []
     for hb in ctx.db(cfg).bodies:
         if hb["kind"] == "AssocFn" and hb["key"].startswith(K + "__") and "sig" in hb:
@@ -183,12 +187,13 @@ def check_guards(ctx, cfg):
             if len(vi) == 1 and out.get("k") == "adt" and out["def"] == "alloc::boxed::Box" and is_ga(adt_args(out)[0]):
                 helpers.append((hb, vi[0] + 1))
     if not any(hb["key"] == K + "__from_vec_helper" for hb, _ in helpers):
-        ctx.body(cfg, K + "__from_vec_helper", "C15.D")
+        ctx.body(cfg, K + "__from_vec_helper", rule)
     for hb, vi in helpers:
-        check_vec_helper(ctx, cfg, hb, vi)
+        check_vec_helper(ctx, cfg, hb, vi, rule)
+    return len(helpers)
 
 
-def check_vec_helper(ctx, cfg, b, vi):
+def check_vec_helper(ctx, cfg, b, vi, rule="C15.D"):
     """A macro helper adopting a Vec as Box<GenericArray<T, N>>: either try_from_vec(vec) unwrapped (unchecked only under the type-level tie
     Const<U>: IntoArrayLength<ArrayLength = N>), or the same hand-over written out under a len == N guard. Crate-local calls are expanded."""
     key = b["key"]
@@ -216,7 +221,7 @@ def check_vec_helper(ctx, cfg, b, vi):
             guard = any(a.prove(fr[0].facts, "Eq", c.ret[1], N_) for c in ln) or (ir[0].ret[3] is not None and a.prove(fr[0].facts, "Eq", ir[0].ret[3], N_))
             ok = same and guard and all(r["val"] == fr[0].ret for r in a.returns)
             form = "Box::from_raw(Box::into_raw(vec.into_boxed_slice()) as *mut GenericArray<T, N>) under len == N (same pointer: %s, guard: %s)" % (same, guard)
-    ctx.ob("C15.D", key, ok, "%s = %s: %s" % (name, form, ok), at=b["at"], cfg=cfg)
+    ctx.ob(rule, key, ok, "%s = %s: %s" % (name, form, ok), at=b["at"], cfg=cfg)
 
 
 def alt_into_vec(ctx, cfg, a0, b):
